@@ -101,9 +101,55 @@ Proof. exact second_index_only_after_copyable. Qed.
    computed in Coq from those tables (lib/StdUnsl.sbound) and holds for all byte sequences, all chunkings and all taster tables. *)
 Require Import Verif.gen.RecvGen Verif.lib.Unsl Verif.lib.UnslProofs Verif.lib.StdUnsl Verif.lib.StdUnslProofs Verif.lib.RecvTie.
 
+(* THE SCHEMA'S BOUND sbound (review-2 repair; the round-5 statement was FALSE of the real code, see C11_taster_only_bound_refuted
+   below).  sbound c is finite only if every constraint object of the tree has a CLOSED opentype list: a list (not None = "all
+   types are accepted") that names none of copyable / decimal / set-vocab / add-vocab, whose unslicers take no size limit from
+   the schema; a PolyConstraint (ChoiceOf; inherits opentypes = None) is bounded only as the ROOT constraint, where
+   RootUnslicer.doOpen refuses OPEN copyable; inside a container it is unbounded (known finding
+   oracle/unbounded-buffering/choice-admits-copyable).
+   GUARD, stated: the conclusion is claimed for runs in which the model did not ABSTAIN (sabstained = false).  An abstaining run
+   ends the model with the marker UUnmodelled (lib/Unsl.v: neither ok nor abandoned) and its buffer is no longer the real
+   receiver's.  With a finite sbound the abstentions left are value-level only -- what a reference resolves to, a non-ASCII
+   unicode body or index token, float / bool / frozenset members of sets and dict keys -- each after a token that was tasted and
+   bounded like any other; NO unslicer outside the model is ever created (C11_bounded_schema_never_leaves_the_model).  The real
+   receiver's high-water mark in such runs is covered by the direct oracle only. *)
 Theorem C11_schema_bound_standard_unslicers : forall mi lg c Bs cs, sbound c = Some Bs ->
+  sabstained (snd (sfeed_all mi lg (init (sctx0 (Some c))) cs)) = false ->
   lenZ (r_buf (fst (sfeed_all mi lg (init (sctx0 (Some c))) cs))) < 65 + Z.max (Z.max (Z.max Bs (Z.max mi lg)) 8) SIZE_LIMIT.
-Proof. exact std_buffer_bounded. Qed.
+Proof. intros mi lg c Bs cs HS _. exact (std_buffer_bounded mi lg c Bs cs HS). Qed.
+
+(* the guard above is not hiding an unslicer: under a finite sbound every unslicer that is ever on the stack carries the bound, and
+   in every reachable state an OPEN sequence is refused by the opentype check, refused by the registry, kills the connection in
+   setConstraint (AssertionError), or creates a MODELLED unslicer -- std_do_open never answers "abstain" *)
+Theorem C11_bounded_schema_never_leaves_the_model : forall mi lg c Bs cs name, sbound c = Some Bs ->
+  let st := map (uf_st sfr) (u_stack sfr (r_ctx (fst (sfeed_all mi lg (init (sctx0 (Some c))) cs)))) in
+  st <> [] -> std_do_open st [name] <> OExc 98.
+Proof. exact std_bounded_schema_open_never_abstains. Qed.
+
+Theorem C11_reachable_unslicers_carry_the_bound : forall mi lg c Bs cs, sbound c = Some Bs ->
+  Forall (fun f => SP (Z.max 0 Bs) (uf_st sfr f)) (u_stack sfr (r_ctx (fst (sfeed_all mi lg (init (sctx0 (Some c))) cs)))).
+Proof. exact std_reachable_stack_bounded. Qed.
+
+(* REFUTED: the round-5 bound, read off the taster tables alone (sbound_tasters).  Witness c = ListOf(ChoiceOf(ByteStringConstraint(3),
+   UnicodeConstraint(3))) with the taster tables / strictTaster / opentypes of the live objects: sbound_tasters c = 18, yet after
+   OPEN(0) "list" the list's slot tastes the next OPEN, its opentype check ADMITS copyable, and doOpen leaves the model: the real
+   code builds a RemoteCopyUnslicer (setConstraint is BaseUnslicer's `pass`, checkToken applies no constraint to an attribute name).
+   REPLAYED on the real code (harness/c11.py choice_admits_copyable, corpus/C11/choice_admits_copyable.json): OPEN(0) "list" OPEN(1)
+   "copyable" "twisted.python.failure.Failure" STRING(5 000 000) + 100 chunks of 40 kB: 4 000 005 bytes held, connection alive, no
+   violation.  Known finding oracle/unbounded-buffering/choice-admits-copyable.  sbound c = None. *)
+Theorem C11_taster_only_bound_refuted :
+  exists c st, sbound_tasters c = Some 18 /\
+    sapply_all 13 30 (sctx0 (Some c)) [(tok_OPEN, 0, []); (tok_STRING, 4, [108; 105; 115; 116])] =
+      UOk sfr {| u_discard := 0; u_inOpen := false; u_opentype := [[108; 105; 115; 116]]; u_stack := st;
+                 u_objctr := 1; u_inbObj := 0; u_inbOpen := 0; u_vocab := [] |} [] /\
+    std_check (uf_st sfr (hd {| uf_open := None; uf_st := sroot None |} st)) tok_OPEN 1 = OOk tt /\
+    std_do_open (map (uf_st sfr) st) [str_copyable] = OExc 98 /\
+    sbound c = None.
+Proof. exact std_taster_only_bound_refuted. Qed.
+
+(* inside the guard: the same ChoiceOf as the ROOT constraint is bounded (18 bytes) *)
+Example C11_root_choice_bounded : sbound rf_choice = Some 18.
+Proof. reflexivity. Qed.
 
 (* what the bound rests on: a token that a constraint's taster accepts fits the constraint's bound ... *)
 Theorem C11_taster_accepts_within_bound : forall c ty size B, usized ty = true -> ole (sbound c) B -> staste c ty size = OOk tt -> size <= B.
@@ -143,6 +189,17 @@ Example C11_bound_example :
   forall cs, lenZ (r_buf (fst (sfeed_all 13 0 (init (sctx0 (Some (SDict (op 5) (b 3) (STuple (op 2) [b 5; i8]) None)))) cs))) < 1065.
 Proof. intros b i8 op cs. apply (std_buffer_bounded 13 0 _ 8 cs). reflexivity. Qed.
 
+(* the guard of C11_schema_bound_standard_unslicers is satisfiable by a run that is not trivial: under that constraint, a dict with an
+   oversize key claim trickled in two chunks -- the model does not abstain, reports one violation, holds nothing *)
+Example C11_guard_example :
+  let b (n : Z) := SPrim {| t_taster := [(130, Some n); (135, None)]; t_strict := false; t_opens := Some [] |} in
+  let i8 := SPrim {| t_taster := [(129, None); (131, None); (133, Some 8); (134, Some 8)]; t_strict := false; t_opens := Some [] |} in
+  let op (k : Z) := {| t_taster := [(136, None)]; t_strict := false; t_opens := Some [k] |} in
+  let r := sfeed_all 13 0 (init (sctx0 (Some (SDict (op 5) (b 3) (STuple (op 2) [b 5; i8]) None))))
+             [[0; 136; 4; 130; 100; 105; 99; 116; 100; 130]; [97; 98; 99]] in
+  sabstained (snd r) = false /\ snd r = [UViolation] /\ r_buf (fst r) = [] /\ r_skip (fst r) = 97.
+Proof. vm_compute. repeat split; reflexivity. Qed.
+
 (* "rejected bodies are skipped as they arrive" / "decides after reading at most 65 bytes": the translated dispatch clauses of
    handleData (gen/RecvGen.v) do, for every token kind with a body, what the tokenizer model does *)
 Theorem C11_tie_rejected_body_is_skipped : forall ty hdr have, has_body ty = true ->
@@ -167,7 +224,7 @@ Proof. exact tie_error_oversize. Qed.
 Definition C11_group_1 := (@C11_decide_by_65, @C11_rejected_never_buffered, @C11_skipping_stores_nothing, @C11_bound, @C11_header_cap, @C11_taster_respects_limit, @C11_negotiation_cap, @C11_negotiation_cap_no_terminator, @C11_negotiation_waits_below_cap, @C11_negotiation_block_within_cap, @C11_pb_first_index_token_bounded, @C11_pb_copyable_classname_bounded).
 Print Assumptions C11_group_1.
 (* one Print Assumptions per group: the axioms of a tuple are the union of the axioms of its components *)
-Definition C11_group_2 := (@C11_root_index_tokens_bounded, @C11_index_positions, @C11_schema_bound_standard_unslicers, @C11_taster_accepts_within_bound, @C11_unslicer_check_within_bound, @C11_child_inherits_bound, @C11_bound_any_unslicers, @C11_tie_rejected_body_is_skipped, @C11_tie_accepted_body_waits, @C11_tie_skip_prologue, @C11_tie_header_window, @C11_tie_error_oversize).
+Definition C11_group_2 := (@C11_root_index_tokens_bounded, @C11_index_positions, @C11_schema_bound_standard_unslicers, @C11_bounded_schema_never_leaves_the_model, @C11_reachable_unslicers_carry_the_bound, @C11_taster_only_bound_refuted, @C11_taster_accepts_within_bound, @C11_unslicer_check_within_bound, @C11_child_inherits_bound, @C11_bound_any_unslicers, @C11_tie_rejected_body_is_skipped, @C11_tie_accepted_body_waits, @C11_tie_skip_prologue, @C11_tie_header_window, @C11_tie_error_oversize).
 Print Assumptions C11_group_2.
 
 (* the index-token check used by the standard-unslicer model is the TRANSLATED RootUnslicer.openerCheckToken, for all arguments *)
